@@ -277,7 +277,7 @@ var v6seeds = []string{
 	"::/0", "::/64", "::/1", "8000::/1", "ffff:ffff:ffff:ffff:ffff:ffff:ffff:ffff/128", "ffff::/16", "::/128",
 	"::1:0:0:0/80", "::/80", "::/96", "::fffe:0:0/96", "2001:db8::/32", "2001:db8::/48", "2001:db8:0:1::/64",
 	"2001:db8::/64", "2001:db9::/32", "2001:db8::1/128", "::1/128", "::/8", "0:0:0:1::/64", "ffff:ffff:ffff:ffff::/64",
-	"::2:0:0:0/79", "fe80::/10", "2001:db8::/33", "2001:db8:8000::/33",
+	"::2:0:0:0/79", "fe80::/10", "2001:db8::/33", "2001:db8:8000::/33", "::8000:0:0/81", "::fffe:0:0/95", "::fffe:0:0/96",
 }
 
 func parseBlk(s string) blk {
